@@ -31,7 +31,7 @@ SHARD = 24
 RULE = ("one scenario = 1-5 stations (continuous or finite-rate EVSEs, shuffled names, mixed voltages / phase angles), "
         "0-3 constraints with mixed-sign coefficients, 1-9 non-overlapping sessions (back-to-back stays, arrival ties across "
         "stations), scheduler in {uncontrolled, scripted multi-period, sorted FCFS/EDF/LLF/LRPT with distinct keys}; "
-        "6 runs per scenario (original, stations permuted, constraints permuted, sessions permuted, shifted by k, other "
+        "7 runs per scenario (interrupted-and-resumed, original, stations permuted, constraints permuted, sessions permuted, shifted by k, other "
         "PYTHONHASHSEED); every 5th scenario is a single-phase site (equal phase angles) with a feeder row of ones over all "
         "stations and tighter 0/1 pod rows that bind, every 7th a three-phase site with binding constraints; stream 2: in-process sequences A, <unrelated / re-wired sites with the same ids>, A on three-phase "
         "sites with binding constraints and sorted schedulers - the second run of A must equal the first exactly; "
@@ -112,7 +112,56 @@ def rand_scenario(rng, idx=0):
         sc["max_recompute"] = 1
     if kind == "sorted":
         sc["max_recompute"] = rng.choice([None, 1])
+    return add_options(rng, sc)
+
+
+LEX_NAMES = ["S-9", "S-10", "S-11", "s-2", "10", "9", "", "0"]
+
+
+def add_options(rng, sc):
+    """unusual-but-legal parameters, dtypes, caller-side mutations and network edits (audit checklist 3-8); the same
+    options are used in every variant of the scenario, and the model is given the same parameters"""
+    o = dict(period=rng.choice([5, 5, 5, 1, 7, 2.5]),
+             tols=rng.choice([None, None, None, [0.5, 1e-7], [0.0, 0.01], [1e-3, 0.0]]),
+             conmut=rng.choice([None, None, "dummy", "update", "both"]),
+             mutate_args=rng.random() < 0.4, np_rows=rng.random() < 0.3, np_times=rng.random() < 0.3,
+             est_dep=rng.random() < 0.3, resume_kind=rng.choice(["Exception", "BaseException"]),
+             resume_fresh=rng.random() < 0.3)
+    sc["opts"] = o
+    if rng.random() < 0.2 and len(sc["stations"]) <= len(LEX_NAMES):
+        # station names whose lexicographic order differs from the registration order, numeric-looking, mixed case, empty
+        new = rng.sample(LEX_NAMES, len(sc["stations"]))
+        ren = {st["id"]: nn for st, nn in zip(sc["stations"], new)}
+        for st in sc["stations"]:
+            st["id"] = ren[st["id"]]
+        for c in sc["constraints"]:
+            c["coefs"] = {ren[k]: v for k, v in c["coefs"].items()}
+        for x in sc["sessions"]:
+            x["station"] = ren[x["station"]]
+    if sc["kind"] != "sorted" and rng.random() < 0.3:
+        for st in sc["stations"]:
+            if st["kind"][0] == "C" and rng.random() < 0.5:
+                st["kind"] = ["D", rng.choice([6, 8]), st["kind"][2]]
+    for c in sc["constraints"]:
+        if rng.random() < 0.2:
+            c["limit"] = rng.choice([26.5, 33.3, 47.25])
+    if sc["constraints"] and rng.random() < 0.3:
+        # the same aggregate current bounded twice with different limits (a breaker and a transformer rating on one feeder):
+        # identical coefficient rows, inserted at a random position
+        c = rng.choice(sc["constraints"])
+        twin = dict(name="con-%d" % len(sc["constraints"]), coefs=dict(c["coefs"]),
+                    limit=rng.choice([x for x in [16, 24, 32, 40, 64] if x != c["limit"]]))
+        sc["constraints"].insert(rng.randint(0, len(sc["constraints"])), twin)
     return sc
+
+
+def period_of(sc):
+    return sc.get("opts", {}).get("period", PERIOD)
+
+
+def tols_of(sc):
+    t = sc.get("opts", {}).get("tols")
+    return (1e-5, 1e-7) if not t else (t[0], t[1])
 
 
 def variant_input(sc, variant):
@@ -146,45 +195,89 @@ def script_pilot(sc, station, rel_t):
     r = pyrandom.Random("%d/%s/%d" % (sc["script_seed"], station, rel_t))
     if st["kind"][0] == "F":
         return r.choice([0] + st["kind"][1])
+    if st["kind"][0] == "D":
+        return r.choice([0, 0, st["kind"][1], 13.5, 16, st["kind"][2]])
     return r.choice([0, 0, 6, 8, 13.5, 16, st["kind"][2]])
 
 
-def run_variant(sc, variant):
-    """one real run; returns outputs keyed by ids"""
+def run_variant(sc, variant, nested=None, alg_pool=None):
+    """one real run; returns outputs keyed by ids.
+    variant 'resume': the scheduler raises once in a period with an arrival, the harness catches it and calls run() again.
+    nested: another scenario that is simulated completely INSIDE this run's second scheduler call (two live simulations).
+    alg_pool: dict in which algorithm objects are kept so that consecutive simulations reuse the same object."""
     from datetime import datetime
     import numpy as np
-    from acnportal.acnsim import Simulator, EventQueue, PluginEvent, ChargingNetwork, Current
-    from acnportal.acnsim.models import EV, EVSE, FiniteRatesEVSE, Battery
+    from acnportal.acnsim import Simulator, EventQueue, PluginEvent, ChargingNetwork, Current, Interface
+    from acnportal.acnsim.models import EV, EVSE, FiniteRatesEVSE, DeadbandEVSE, Battery
     from acnportal.algorithms import (UncontrolledCharging, SortedSchedulingAlgo, BaseAlgorithm,
                                       first_come_first_served, earliest_deadline_first, least_laxity_first,
                                       largest_remaining_processing_time)
-    vi = variant_input(sc, variant)
-    net = ChargingNetwork()
+    vi = variant_input(sc, "orig" if variant == "resume" else variant)
+    o = sc.get("opts", {})
+    tol = tols_of(sc)
+    net = ChargingNetwork(violation_tolerance=tol[0], relative_tolerance=tol[1]) if o.get("tols") else ChargingNetwork()
     for st in vi["stations"]:
-        evse = FiniteRatesEVSE(st["id"], list(st["kind"][1])) if st["kind"][0] == "F" else \
-            EVSE(st["id"], max_rate=st["kind"][2], min_rate=st["kind"][1])
+        if st["kind"][0] == "F":
+            evse = FiniteRatesEVSE(st["id"], list(st["kind"][1]))
+        elif st["kind"][0] == "D":
+            evse = DeadbandEVSE(st["id"], deadband_end=st["kind"][1], max_rate=st["kind"][2])
+        else:
+            evse = EVSE(st["id"], max_rate=st["kind"][2], min_rate=st["kind"][1])
         net.register_evse(evse, st["voltage"], st["phase"])
-    for c in vi["constraints"]:
-        net.add_constraint(Current(dict(c["coefs"])), c["limit"], name=c["name"])
+    conmut = o.get("conmut")
+    if conmut in ("dummy", "both") and vi["stations"]:
+        net.add_constraint(Current({vi["stations"][0]["id"]: 1}), 1, name="scratch")
+    handed = []
+    for j, c in enumerate(vi["constraints"]):
+        limit = c["limit"] if not o.get("np_rows") else (np.float64(c["limit"]) if j % 2 else c["limit"])
+        cur = Current(dict(c["coefs"]))
+        if conmut in ("update", "both") and j == 0:
+            # registered with other values first, then corrected in place
+            net.add_constraint(Current({k: -3 * v for k, v in c["coefs"].items()}), 7, name=c["name"])
+            net.update_constraint(c["name"], cur, limit)
+        else:
+            net.add_constraint(cur, limit, name=c["name"])
+        handed.append(cur)
+    if conmut in ("dummy", "both") and vi["stations"]:
+        net.remove_constraint("scratch")
+    # NOT done here: editing the Current objects after add_constraint.  On the unchanged tree the network's constraint
+    # matrix aliases the first Current handed in (open finding "current-alias", see replay_known below).
     evs = {}
     events = []
-    for s in vi["sessions"]:
-        ev = EV(s["arrival"], s["departure"], s["energy"], s["station"], s["id"], Battery(s["cap"], s["init"], s["maxp"]))
+    ests = [s["departure"] + 1 + 2 * (s["k"] % 2) for s in vi["sessions"]]
+    use_est = o.get("est_dep") and len(set(ests)) == len(ests)
+    for s, est in zip(vi["sessions"], ests):
+        a, d = (np.int64(s["arrival"]), np.int64(s["departure"])) if o.get("np_times") else (s["arrival"], s["departure"])
+        ev = EV(a, d, s["energy"], s["station"], s["id"], Battery(s["cap"], s["init"], s["maxp"]),
+                estimated_departure=est if use_est else None)
         evs[s["id"]] = ev
         events.append(PluginEvent(s["arrival"], ev))
     shift = vi["shift"]
-    if sc["kind"] == "unc":
-        alg = UncontrolledCharging()
-    elif sc["kind"] == "sorted":
-        alg = SortedSchedulingAlgo({"fcfs": first_come_first_served, "edf": earliest_deadline_first,
-                                    "llf": least_laxity_first, "lrpt": largest_remaining_processing_time}[sc["sort"]])
-        alg.max_recompute = sc["max_recompute"]
-    else:
+
+    def make_alg():
+        if sc["kind"] == "unc":
+            return UncontrolledCharging()
+        if sc["kind"] == "sorted":
+            key = "sorted/" + sc["sort"]
+            if alg_pool is not None and key in alg_pool:
+                al = alg_pool[key]                # the same algorithm object serves several simulations
+            else:
+                al = SortedSchedulingAlgo({"fcfs": first_come_first_served, "edf": earliest_deadline_first,
+                                           "llf": least_laxity_first, "lrpt": largest_remaining_processing_time}[sc["sort"]])
+                if alg_pool is not None:
+                    alg_pool[key] = al
+            al.max_recompute = sc["max_recompute"]
+            return al
         L = sc["script_len"]
 
         class Scripted(BaseAlgorithm):
+            prev = None
+
             def schedule(self, active_sessions):
                 t = self.interface.current_time
+                if o.get("mutate_args") and self.prev is not None:
+                    for k in self.prev:            # the dictionary handed out last time is scribbled over
+                        self.prev[k] = [999.0] * len(self.prev[k])
                 # every station with an active session gets its table entries; one idle station (by name) too
                 ids = sorted({s.station_id for s in active_sessions})
                 if ids and (t - shift) % 3 == 0:
@@ -193,25 +286,65 @@ def run_variant(sc, variant):
                         ids.append(idle)
                 if ids and (t - shift) % 4 == 1 and len(ids) > 1:
                     ids = ids[1:]                      # an active station is left out: it gets zeros
-                return {i: [script_pilot(sc, i, t - shift + j) for j in range(L)] for i in ids}
-        alg = Scripted()
-        alg.max_recompute = sc["max_recompute"]
+                out = {}
+                for n_i, i in enumerate(ids):
+                    row = [script_pilot(sc, i, t - shift + j) for j in range(L)]
+                    if o.get("np_rows"):
+                        row = [np.array(row, dtype=float), [np.float64(x) for x in row], [int(x) if float(x).is_integer() else x for x in row]][n_i % 3]
+                    out[i] = row
+                self.prev = out
+                return out
+        al = Scripted()
+        al.max_recompute = sc["max_recompute"]
+        return al
     calls = []
-    orig_run = alg.run
+    state = dict(n_calls=0, raise_at=None)
+    if variant == "resume" and vi["sessions"]:
+        state["raise_at"] = sorted(x["arrival"] for x in vi["sessions"])[len(vi["sessions"]) // 2]
 
-    def rec_run():
-        sch = orig_run()
-        calls.append([int(sim.iteration), {k: [float(x) for x in v] for k, v in sch.items()}])
-        return sch
-    alg.run = rec_run
-    sim = Simulator(net, alg, EventQueue(events), datetime(2021, 3, 1), period=PERIOD, verbose=False)
+    class Interrupted(Exception):
+        pass
+
+    class InterruptedBase(BaseException):
+        pass
+    exc = InterruptedBase if o.get("resume_kind") == "BaseException" else Interrupted
+
+    def arm(al):
+        inner = al.schedule
+
+        def schedule(active_sessions):
+            if state["raise_at"] is not None and int(sim.iteration) == state["raise_at"]:
+                state["raise_at"] = None
+                raise exc("scheduler failed")
+            state["n_calls"] += 1
+            if nested is not None and state["n_calls"] == 2:
+                state["nested_out"] = run_variant(nested, "orig")      # a second simulation, start to finish, right here
+            sch = inner(active_sessions)
+            calls.append([int(sim.iteration), {k: [float(x) for x in v] for k, v in sch.items()}])
+            return sch
+        al.schedule = schedule
+        return al, inner
+    alg, restore = arm(make_alg())
+    sim = Simulator(net, alg, EventQueue(events), datetime(2021, 3, 1), period=period_of(sc), verbose=False)
+    if o.get("mutate_args"):
+        events.clear()                               # caller-owned list mutated after the call
     crash = None
     with warnings.catch_warnings(record=True) as wlog:
         warnings.simplefilter("always")
         try:
-            sim.run()
+            try:
+                sim.run()
+            except (Interrupted, InterruptedBase):
+                if o.get("resume_fresh"):
+                    alg.schedule = restore
+                    alg, restore = arm(make_alg() if alg_pool is None else alg)
+                    sim.scheduler = alg
+                    sim.max_recompute = alg.max_recompute
+                    alg.register_interface(Interface(sim))
+                sim.run()
         except Exception as ex:  # noqa
             crash = "%s: %s" % (type(ex).__name__, str(ex)[:160])
+    alg.schedule = restore                               # pooled objects go back unwrapped
     warned = set()
     for w in wlog:
         m = str(w.message)
@@ -219,12 +352,24 @@ def run_variant(sc, variant):
             warned.add(int(m.split("iteration")[1].split(".")[0]))
     n = int(sim.iteration)
     ids = net.station_ids
+    # the same quantities through the DataFrame accessors (columns = station ids)
+    df_ok = True
+    try:
+        pdf, rdf = sim.pilot_signals_as_df(), sim.charging_rates_as_df()
+        for i, sid in enumerate(ids):
+            df_ok = df_ok and list(pdf[sid][:n]) == list(sim.pilot_signals[i, :n]) and list(rdf[sid][:n]) == list(sim.charging_rates[i, :n])
+    except Exception as ex:  # noqa
+        df_ok = "%s: %s" % (type(ex).__name__, str(ex)[:80])
+    seen = {}
+    for t, sch in calls:                                 # one submission per period (a resumed period is submitted once)
+        seen[t] = sch
+    calls = [[t, seen[t]] for t in sorted(seen)]
     return dict(variant=variant, crash=crash, iterations=n,
                 pilots={ids[i]: [float(x) for x in sim.pilot_signals[i, :n]] for i in range(len(ids))},
                 rates={ids[i]: [float(x) for x in sim.charging_rates[i, :n]] for i in range(len(ids))},
                 energy={k: float(ev.energy_delivered) for k, ev in evs.items()},
                 warn=[[t, t in warned] for t, sch in calls if len(sch) > 0],
-                calls=calls, station_order=list(ids))
+                calls=calls, station_order=list(ids), df_ok=df_ok)
 
 
 # ---------------------------------------------------------------------------------------------
@@ -242,7 +387,7 @@ def feas_ambiguous(sc, vi, out):
             continue
         L = len(next(iter(sch.values())))
         for c in vi["constraints"]:
-            lim = F(c["limit"]) + max(F("1e-5"), F("1e-7") * F(c["limit"]))
+            lim = F(c["limit"]) + max(F(tols_of(sc)[0]), F(tols_of(sc)[1]) * F(c["limit"]))
             for j in range(L):
                 re = sum(F(a) * F(sch[s][j]) * cs_of(sts[s]["phase"])[0] for s, a in c["coefs"].items() if s in sch)
                 im = sum(F(a) * F(sch[s][j]) * cs_of(sts[s]["phase"])[1] for s, a in c["coefs"].items() if s in sch)
@@ -258,7 +403,7 @@ def ambiguous(sc, vi, out):
         V = sts[s["station"]]["voltage"]
         delivered = F(0)
         for t in range(s["arrival"], min(s["departure"], out["iterations"])):
-            delivered += F(out["rates"][s["station"]][t]) * V / 1000 * F(PERIOD, 60)
+            delivered += F(out["rates"][s["station"]][t]) * V / 1000 * F(period_of(sc)) / 60
             if abs(F(s["energy"]) - delivered - F("1e-3")) < F("1e-9"):
                 return True
     return False
@@ -276,6 +421,8 @@ def num_maps(sc):
 def kind_coq(k):
     if k[0] == "F":
         return "(Finite %s)" % coq_list([q(r) for r in k[1]])
+    if k[0] == "D":
+        return "(Deadband %s %s)" % (q(k[1]), q(k[2]))
     return "(Continuous %s %s)" % (q(k[1]), q(k[2]))
 
 
@@ -292,8 +439,9 @@ def case_coq(sc, vi, out):
         z(c["name"].split("-")[1]), coq_list(["(%s, %s)" % (z(st_num[k]), q(a)) for k, a in c["coefs"].items()]), q(c["limit"]))
         for c in vi["constraints"]])
     cfg = ("{| cf_sessions := %s; cf_max_recompute := %s; cf_period := %s; cf_constraints := %s; "
-           "cf_abs_tol := (1 # 100000); cf_rel_tol := (1 # 10000000) |}") % (
-        ses, coq_opt(sc["max_recompute"], lambda m: "%d%%nat" % m), q(PERIOD), cons)
+           "cf_abs_tol := %s; cf_rel_tol := %s |}") % (
+        ses, coq_opt(sc["max_recompute"], lambda m: "%d%%nat" % m), q(F(period_of(sc))), cons,
+        q(F(repr(tols_of(sc)[0]))), q(F(repr(tols_of(sc)[1]))))
     if sc["kind"] == "unc":
         sched = "Uncontrolled"
     else:
@@ -308,7 +456,7 @@ def case_coq(sc, vi, out):
         coq_bool(not feas_ambiguous(sc, vi, out)), coq_bool(bool(out["crash"])))
 
 
-VARIANTS = ["orig", "stperm", "cperm", "seperm", "shift"]
+VARIANTS = ["orig", "stperm", "cperm", "seperm", "shift", "resume"]
 
 
 def other_hashseed(scs):
@@ -327,17 +475,21 @@ def other_hashseed(scs):
     return outs
 
 
+def base_variant(v):
+    return "orig" if v in ("hash", "resume") else v
+
+
 def scenario_cases(sc, outs):
     """correspondence cases (one per run) of one scenario; the paired outputs ride along for the monitor"""
     cases = []
-    summary = {o["variant"]: {k: o[k] for k in ("crash", "iterations", "pilots", "rates", "energy", "warn")} for o in outs}
-    ambs = {o["variant"]: (not o["crash"]) and ambiguous(sc, variant_input(sc, "orig" if o["variant"] == "hash" else o["variant"]), o)
+    summary = {o["variant"]: {k: o.get(k) for k in ("crash", "iterations", "pilots", "rates", "energy", "warn", "df_ok")} for o in outs}
+    ambs = {o["variant"]: (not o["crash"]) and ambiguous(sc, variant_input(sc, base_variant(o["variant"])), o)
             for o in outs}
     summary["amb_any"] = any(ambs.values()) or any(
-        (not o["crash"]) and feas_ambiguous(sc, variant_input(sc, "orig" if o["variant"] == "hash" else o["variant"]), o) for o in outs)
+        (not o["crash"]) and feas_ambiguous(sc, variant_input(sc, base_variant(o["variant"])), o) for o in outs)
     for o in outs:
         v = o["variant"]
-        vi = variant_input(sc, "orig" if v == "hash" else v)
+        vi = variant_input(sc, base_variant(v))
         amb = ambs[v]
         coq = case_coq(sc, vi, o)
         cases.append(dict(input=dict(scenario=sc, variant=v), impl=dict(o, calls=None), coq=coq, ambiguous=amb,
@@ -347,7 +499,7 @@ def scenario_cases(sc, outs):
 
 
 def gen_cases(rng, n, tier):
-    n_sc = max(1, n // 6)
+    n_sc = max(1, n // 7)
     # every 5th scenario: single-phase site, feeder row of ones + binding pod rows; every 7th: three-phase site with binding
     # constraints; the rest: the general generator
     scs = [rand_singlephase(rng, i) if i % 5 == 2 else rand_threephase(rng, i) if i % 7 == 3 else rand_scenario(rng, i)
@@ -386,9 +538,10 @@ def rand_threephase(rng, idx, prefix="TP"):
         sessions.append(dict(k=k, id="sess-%02d" % k, station=nm, arrival=a, departure=d,
                              energy=rng.choice([6.0, 12.0, 20.0]), cap=60.0, init=0.0, maxp=rng.choice([6.5, 7.5, 11.0])))
         k += 1
-    return dict(idx=idx, stations=stations, constraints=constraints, sessions=sessions, kind="sorted",
-                sort=rng.choice(["fcfs", "edf", "llf"]), max_recompute=rng.choice([None, 1]),
-                script_seed=rng.randint(0, 10 ** 6), script_len=rng.randint(1, 3), shift=1, perm_seed=rng.randint(0, 10 ** 6))
+    return add_options(rng, dict(
+        idx=idx, stations=stations, constraints=constraints, sessions=sessions, kind="sorted",
+        sort=rng.choice(["fcfs", "edf", "llf"]), max_recompute=rng.choice([None, 1]),
+        script_seed=rng.randint(0, 10 ** 6), script_len=rng.randint(1, 3), shift=1, perm_seed=rng.randint(0, 10 ** 6)))
 
 
 def rand_singlephase(rng, idx):
@@ -412,10 +565,11 @@ def rand_singlephase(rng, idx):
     for k, (nm, a, d) in enumerate(zip(names, arrs, deps)):
         sessions.append(dict(k=k, id="sess-%02d" % k, station=nm, arrival=a, departure=d,
                              energy=rng.choice([6.0, 12.0, 20.0]), cap=60.0, init=0.0, maxp=rng.choice([6.5, 7.5, 11.0])))
-    return dict(idx=idx, stations=stations, constraints=constraints, sessions=sessions, kind="sorted",
-                sort=rng.choice(["fcfs", "fcfs", "edf", "llf"]), max_recompute=rng.choice([None, 1]),
-                script_seed=rng.randint(0, 10 ** 6), script_len=rng.randint(1, 3), shift=rng.randint(1, 3),
-                perm_seed=rng.randint(0, 10 ** 6))
+    return add_options(rng, dict(
+        idx=idx, stations=stations, constraints=constraints, sessions=sessions, kind="sorted",
+        sort=rng.choice(["fcfs", "fcfs", "edf", "llf"]), max_recompute=rng.choice([None, 1]),
+        script_seed=rng.randint(0, 10 ** 6), script_len=rng.randint(1, 3), shift=rng.randint(1, 3),
+        perm_seed=rng.randint(0, 10 ** 6)))
 
 
 def rewired(rng, sc, idx):
@@ -437,16 +591,23 @@ def rand_sequence(rng, idx):
     b = rewired(rng, a, idx + 1)
     x = rand_threephase(rng, idx + 2, prefix="XQ")
     x2 = rand_scenario(rng, idx + 3)
-    pat = rng.choice(["AXBA", "AXBA", "AXBA", "ABXA", "ABA", "AXBX2A", "AX2BA"])
+    pat = rng.choice(["AXBA", "AXBA", "AXBA", "ABXA", "ABA", "AXBX2A", "AX2BA", "A(B)", "A(B)", "A(X)"])
+    if pat in ("A(B)", "A(X)"):
+        # two LIVE simulations: the second run of A simulates B (same ids, re-wired) or X completely inside its second
+        # scheduler call
+        return dict(pattern=pat, scs=[a, a], nested={"1": b if pat == "A(B)" else x}, reuse_alg=False)
     mid = {"AXBA": [x, b], "ABXA": [b, x], "ABA": [b], "AXBX2A": [x, b, x2], "AX2BA": [x2, b]}[pat]
-    return dict(pattern=pat, scs=[a] + mid + [a])
+    # half of the sequences hand the SAME algorithm object to every simulation that uses that algorithm
+    return dict(pattern=pat, scs=[a] + mid + [a], reuse_alg=rng.random() < 0.5)
 
 
 def run_sequence(seq):
-    return [run_variant(sc, "orig") for sc in seq["scs"]]
+    pool = {} if seq.get("reuse_alg") else None
+    return [run_variant(sc, "orig", nested=(seq.get("nested") or {}).get(str(j)), alg_pool=pool)
+            for j, sc in enumerate(seq["scs"])]
 
 
-OUT_KEYS = ("crash", "iterations", "pilots", "rates", "energy", "warn")
+OUT_KEYS = ("crash", "iterations", "pilots", "rates", "energy", "warn", "df_ok")
 
 
 def sequence_cases(seq, outs, other=None):
@@ -459,7 +620,8 @@ def sequence_cases(seq, outs, other=None):
         if j == 0:
             extra = dict(pattern=seq["pattern"], first={k: outs[0][k] for k in OUT_KEYS},
                          again={k: outs[-1][k] for k in OUT_KEYS}, other=other)
-        cases.append(dict(input=dict(scenario=sc, variant="seq%d/%s" % (j, seq["pattern"]), sequence=(seq if j == 0 else None)),
+        cases.append(dict(input=dict(scenario=sc, variant="seq%d/%s%s" % (j, seq["pattern"], "/samealg" if seq.get("reuse_alg") else ""),
+                                     sequence=(seq if j == 0 else None)),
                           impl=dict(o, calls=None), coq=case_coq(sc, vi, o), ambiguous=amb,
                           kind="seq/%s/%s" % (sc["kind"], seq["pattern"]), sig=[sc["idx"], sc["perm_seed"], "seq", j, seq["pattern"]],
                           nontrivial=True, paired=None, repeated=extra))
@@ -478,7 +640,7 @@ def all_sequence_cases(seqs):
     oth = other_hashseed(flat)
     per_seq = {}
     for (qi, j), o in zip(back, oth):
-        per_seq.setdefault(qi, {})[j] = {k: o[k] for k in OUT_KEYS}
+        per_seq.setdefault(qi, {})[j] = {k: o.get(k) for k in OUT_KEYS}
     cases = []
     for qi, (q, o) in enumerate(zip(seqs, outs)):
         other = dict(runs={str(j): v for j, v in per_seq.get(qi, {}).items()},
@@ -505,6 +667,9 @@ def same_outputs(a, b, what, exact):
             r = rows_equal(a[key], b[key], "%s/%s" % (what, key))
             if r:
                 return r
+    for x in (a, b):
+        if x.get("df_ok") not in (True, None):
+            return "%s: pilot_signals_as_df / charging_rates_as_df disagree with the matrices (%r)" % (what, x.get("df_ok"))
     for k in a["energy"]:
         if (a["energy"][k] != b["energy"].get(k)) if exact else (not close(a["energy"][k], b["energy"][k])):
             return "%s: energy of %s: %r vs %r" % (what, k, a["energy"][k], b["energy"].get(k))
@@ -565,7 +730,10 @@ def monitor(case):
     for v, x in p.items():
         if v != "amb_any" and x["crash"]:
             return "variant %s raised %s" % (v, x["crash"])
-    for v in ["stperm", "cperm", "seperm", "hash"]:
+    for v, x in p.items():
+        if v != "amb_any" and x.get("df_ok") not in (True, None):
+            return "variant %s: pilot_signals_as_df / charging_rates_as_df disagree with the matrices (%r)" % (v, x.get("df_ok"))
+    for v in ["stperm", "cperm", "seperm", "hash", "resume"]:
         x = p[v]
         for what in ("pilots", "rates"):
             r = rows_equal(o[what], x[what], "%s/%s" % (v, what))
@@ -588,6 +756,27 @@ def monitor(case):
     if any(b for t, b in x["warn"] if t < k) or \
             ([[t + k, b] for t, b in o["warn"]] != [[t, b] for t, b in x["warn"] if t >= k] and not amb_any):
         return "shift: infeasibility warnings differ: %r vs %r" % (o["warn"], x["warn"])
+    return None
+
+
+def replay_known(entry):
+    """open finding current-alias: ChargingNetwork.add_constraint keeps the caller's Current aliased in constraint_matrix
+    (first constraint): editing the Current afterwards changes the network's constraint.  Returns a description while it
+    still reproduces, None once it is repaired."""
+    if entry.get("sig") != "current-alias":
+        return "not re-checked"
+    import numpy as np
+    from acnportal.acnsim import ChargingNetwork, Current
+    from acnportal.acnsim.models import EVSE
+    net = ChargingNetwork()
+    for sid in ("A", "B"):
+        net.register_evse(EVSE(sid, max_rate=32), 208, 0)
+    cur = Current({"A": 1, "B": 1})
+    net.add_constraint(cur, 40, name="c0")
+    before = net.constraint_matrix.copy()
+    cur[:] = 99
+    if not np.array_equal(before, net.constraint_matrix):
+        return "constraint_matrix %s became %s after the caller edited its own Current" % (before.tolist(), net.constraint_matrix.tolist())
     return None
 
 
